@@ -10,6 +10,7 @@ from vlib.runner import Eval
 
 ID = "C06"
 LEVEL = "exploration"
+CGF_RUNS = {"thorough": 3000}  # coverage-guided stage (vlib/cgf.py): libFuzzer executions per worker, 16 workers
 RULE = (
     "A rule `mov: [..., $deref {fields}]` (deref at operand position 1 or 2) for drawn reference components (base: 16 GPRs at 64/32 bit or %rip; index; scale 1/2/4/8; "
     "displacement zero/small/large/negative) with each of the 8 present/absent combinations of register_multiplier / constant_multiplier / constant_offset and drawn "
